@@ -25,7 +25,7 @@ def published_form(v):
 
 
 def run(ctx, chk):
-    fb = ctx.facts('dev')
+    fb = ctx.facts()
     chk.explanation = ('Per message class (dispatch loop with handlers inlined): which status is fed to the FSM (F, E), that the '
                        'bound/as-of fields are assigned only on the Synchronized classification and together, from the message '
                        '(A), void_after = as_of.tv_sec + 1000 with tv_nsec 0 (B), drift passed through unchanged (C), exactly one '
